@@ -106,6 +106,24 @@ def _replay_one(rec):
 
 def record(rng, n):
     cases = []
+    # very selective user filters at larger orders: one to three accepted k-mers among 4^8 / 4^9
+    for k, cnt in ((8, 1), (8, 3), (9, 2)):
+        marked = sorted(rng.sample(range(4 ** k), cnt))
+        g = run_find(k, DocumentedFilter(kmers_of(marked, k)))
+        cases.append({"kind": "find", "src": "pred", "cfg": {"k": k, "run": 0, "gc": [], "motifs": []}, "pred": marked, "k": k,
+                      "out": g["out"], "verts": g["verts"]})
+    # history: the all-marked mask, the caller edits the returned graph in place, the all-marked mask again
+    for k in (1, 2, 3):
+        full = list(range(4 ** k))
+        first = impl.call(dsw.connect_valid_graph, k, numpy.ones(4 ** k, dtype=bool))
+        if first["out"] == "ok":
+            try:
+                first["value"][0, :] = -1
+                first["value"][-1, 0] = -1
+            except Exception:  # noqa
+                pass
+        v = run_valid(k, full, as_int=False)
+        cases.append({"kind": "valid", "k": k, "mask": full, "out": v["out"], "live": v["live"]})
     for i in range(n):
         k = rng.choice([3, 4, 4, 5, 6])
         N = 4 ** k
